@@ -760,6 +760,15 @@ fn finding_fb_size(ctx: &mut Ctx) {
     }
 }
 
+/// lives of the GPU driver without device errors (also run under C09: memory the device still has attached as the backing
+/// of a resource is not returned to the platform; monitor 2023)
+pub fn run_backing(ctx: &mut Ctx) {
+    let fsets = [F_EDID | F_V1, F_EDID | F_IND | F_V1, F_EDID | F_EV | F_V1, F_EDID | F_IND | F_EV | F_V1 | F_AP, F_V1, F_IND | F_EV, 0];
+    for (i, f) in fsets.iter().enumerate() { ctx.tr.scenario(&format!("c20gpu-directed-{}", i)); directed(ctx, *f); }
+    let n = ctx.budget(12, 10);
+    for h in 0..n { ctx.tr.scenario(&format!("c20gpu-history-{}", h)); let nops = 12 + ctx.rng.below(20) as usize; history(ctx, fsets[h as usize % fsets.len()], nops, false); }
+}
+
 pub fn run(ctx: &mut Ctx) {
     finding_fb_size(ctx);
     let fsets = [F_EDID | F_V1, F_EDID | F_IND | F_V1, F_EDID | F_EV | F_V1, F_EDID | F_IND | F_EV | F_V1 | F_AP, F_V1, F_IND | F_EV, F_EDID | F_VIRGL | F_V1 | (1 << 40), 0];
